@@ -79,6 +79,7 @@ def known_classes(evs):
     sess = None
     helper = False          # the property allows retained routes (a helper-mode drop happened and is not over)
     llgr_running = set()    # families whose LLGR period may be running
+    llgr_pending = set()    # LLGR families of the last eligible drop (period starts at restart-timer expiry)
     for e in evs:
         t = e[0]
         if t == 'admin':
@@ -93,7 +94,9 @@ def known_classes(evs):
                 ks.add('C10-5')       # LLGR families outside the GR families: kept but not marked
             if llgr_running and gr and not llgr_running <= gr:
                 ks.add('C10-3')       # re-established during LLGR without re-negotiating GR for a staling family
-            llgr_running = set()
+            llgr_running = set(); llgr_pending = set()
+        elif t == 'rtimer' and sess is None:
+            llgr_running |= llgr_pending
         elif t == 'ann' and e[4]:
             ks.add('C10-6')           # fresh route carrying LLGR_STALE is purged with the stale ones
         elif t == 'down' and sess is not None:
@@ -102,12 +105,13 @@ def known_classes(evs):
             if (sess[2] or sess[3]) and not (applies if sess[2] else (e[1] == 0 and not admin)):
                 ks.add('C10-2')       # GR/LLGR negotiated, drop reason not eligible: routes stale-marked, nothing armed
             if sess[3]:
-                llgr_running = set(f for f, _ in sess[3])
+                if sess[2] is None:
+                    llgr_running = set(f for f, _ in sess[3])
+                else:
+                    llgr_pending = set(f for f, _ in sess[3])
             sess = None
         elif t == 'fail':
             ks.add('C10-1')           # connection attempt that ends before Established
-        elif t == 'force':
-            ks.add('C10-7')           # force_down while LLGR is negotiated re-arms LLGR timers after firing them
     return ks
 
 class Prop:
@@ -255,7 +259,7 @@ class Prop:
 
     def run_model(self, cases, tier):
         pre = 'From RB Require Import Base.Val Model.Deferral Model.Gr.\nOpen Scope N_scope.'
-        return coqrun.eval_terms('C10', pre, [self.case_to_coq(c) for c in cases], shards=8)
+        return coqrun.eval_terms('C10m', pre, [self.case_to_coq(c) for c in cases], shards=8)
 
     def canon(self, case, obs):
         if obs == [-1]:
